@@ -516,7 +516,7 @@ impl Ctx {
         let share: usize = match op {
             0 | 1 | 16 => 30, 2 => 40, 3 => 70, 4..=11 => 30, 12 => 60, 13 | 14 | 15 => 40, 17 => 40, 18 => 60,
             19..=22 => 45, 28 => 40, 29 => 150, 30 => 90, 31 | 32 => 60, 33 => 30, 34 | 35 => 40, 36 => 60,
-            37 => 30, 38 => 20, 39 => 40, 40 => 10,
+            37 => 30, 38 => 20, 39 => 40, 40 => 10, 41 => 60,
             _ => 30,
         };
         let cap = share * self.budget / 1500 / flavours.max(1) + 1;
@@ -648,6 +648,12 @@ fn run_case(cx: &mut Ctx, c: &Case, force: bool) {
                         let nt = if c.pp(4) > 0 { c.pp(4) } else { threads };
                         cx.coq(40, &[8, force_s, adaptive, c.pp(1), c.pp(2), c.pp(3), nt, c.pp(5)], &[&c.xs], &out.ints, c, force);
                     } else { cx.coq(12, &[], &[&c.xs, &out.ints], &[1], c, force); }
+                }
+                "co/sort" | "co/sort_u8" => {
+                    // the whole entry point: strategy from the cache hierarchy, then insertion / quicksort / merge sort / funnel
+                    let esz = if cell == "co/sort_u8" { 1 } else { 8 };
+                    if fits(90) { cx.coq(41, &[c.pp(3), esz, c.pp(0), c.pp(1), c.pp(2), c.pp(5).max(1)], &[&c.xs], &out.ints, c, force); }
+                    else { cx.coq(12, &[], &[&c.xs, &out.ints], &[1], c, force); }
                 }
                 "co/oblivious" => {
                     if fits(90) { cx.coq(35, &[c.pp(3), c.pp(1), c.pp(5).max(1)], &[&c.xs], &out.ints, c, force); }
@@ -995,6 +1001,18 @@ fn all_cases(cx: &mut Ctx, thorough: bool) -> Vec<Case> {
         c.xs = gen_ints(&mut r, n, if cell == "co/sort_u8" { 8 } else { 64 });
         cases.push(c);
     }
+    // the cache-aware branches on inputs small enough for the Coq model: quicksort needs 17+ elements that miss L1 and fit L2
+    // (reached through CacheAware with an L1 of 8n bytes for u8 elements, or through Hybrid with an L3 below 8n bytes)
+    for k in 0..(30 * scale) {
+        let cell = if k % 3 == 0 { "co/sort_u8" } else { "co/sort" };
+        let n = r.range(10, 80) as usize;
+        let l1 = *r.pick(&[0u64, 16, 64, 128, 1024]);
+        let l2 = *r.pick(&[64u64, 256, 1024, 4096]);
+        let l3 = *r.pick(&[0u64, 64, 256, 2048, 8 << 20]);
+        let mut c = Case::new(cell, &[l1, l2, l3, *r.pick(&[0u64, 2, 16]), r.below(2), *r.pick(&[64u64, 16])]);
+        c.xs = gen_ints(&mut r, n, if cell == "co/sort_u8" { 8 } else { 64 });
+        cases.push(c);
+    }
     // funnel recursion on inputs small enough for the Coq model: several levels with small thresholds and widths
     for _ in 0..(30 * scale) {
         let st = *r.pick(&[0u64, 1, 2, 3, 4, 8]);
@@ -1184,7 +1202,7 @@ pub fn run(args: &Args) {
         if i % 97 == 0 { cx.sum.sample(json!({"cell": c.cell, "cfg": c.p, "n": c.xs.len() + c.a.len() + c.b.len() + c.runs.len() + c.strs.len()})); }
         cx.sum.dist(&format!("family={}", c.cell.split('/').next().unwrap_or("")));
     }
-    for cell in ["co/sort", "co/sort_u8", "co/default", "ext/rev", "lt/rev", "radix/bytes_deep"] {
+    for cell in ["co/default", "ext/rev", "lt/rev", "radix/bytes_deep"] {
         cx.sum.cell_status(cell, "S-only");
     }
     for cell in ["adv/str", "ext/rev", "kway/inter"] { cx.sum.cell_status(cell, "finding"); }
